@@ -236,10 +236,6 @@ def run(case):
                 i = int(np.argmax(~m))
                 probs.append(dict(sig=f'units:principal-dispersions:{tname}',
                                   msg=f'Box={box} Vel={vel} {tname} {cc}: sigmavMin^2+Mid^2+Maj^2={ssum[i]} but sigmav3d^2={s3[i] ** 2} (row {i}; {int((~m).sum())} rows)'))
-            # elsewhere: NaN exactly where the reference formula is negative
-            neg = rad < -1e-3 * s3 ** 2
-            if (neg & ~np.isnan(md)).any():
-                probs.append(dict(sig=f'units:principal-dispersions:{tname}:nan', msg=f'{cc}: sigmavMid defined where the radicand is negative'))
     if cleaned:
         for col in CLEAN_UNCHANGED:
             c, u = np.asarray(conv[col]), np.asarray(unc[col])
